@@ -88,11 +88,11 @@ class C04(Prop):
         for q in queries:
             ew, ep = longest_prefix(led.prefix_map, q)
             try:
-                gw = case.call("retrieve_webentity", t.retrieve_webentity, q)
+                gw = case.call_may_refuse("retrieve_webentity", t.retrieve_webentity, q)
             except TraphException:
                 gw = None
             try:
-                gp = case.call("retrieve_prefix", t.retrieve_prefix, q)
+                gp = case.call_may_refuse("retrieve_prefix", t.retrieve_prefix, q)
                 gp = bytes(gp) if gp else gp
             except TraphException:
                 gp = None
@@ -108,7 +108,7 @@ class C04(Prop):
         self.check_queries(case, queries)
         for p in queries:
             try:
-                g = case.call("get_webentity_by_prefix", t.get_webentity_by_prefix, p)
+                g = case.call_may_refuse("get_webentity_by_prefix", t.get_webentity_by_prefix, p)
             except TraphException:
                 g = None
             if g != led.prefix_map.get(p):
